@@ -37,5 +37,6 @@ let load_schema (path : string) : schema =
 let () =
   let sc = load_schema Sys.argv.(1) in
   run_protocol (fun case impl ->
-    let m = string_of_nlist (run_line sc (nlist_of_string case)) in
-    (m, true, true))
+    let c = nlist_of_string case in
+    let m = run_line sc c in
+    (string_of_nlist m, c16_ok_line c (nlist_of_string impl), c16_ok_line c m))
